@@ -237,7 +237,7 @@ Section P.
 
   Lemma step_Inv x l o : Inv x l -> op_ok (length l) o = true -> Inv (step x o) (pstep l o) /\ length (pstep l o) = length l + grows o.
   Proof.
-    intros I Hok. pose proof I as (IL & IV & IS & IO). destruct o as [fields | i t | i p | i args | i args | i fields | i j]; cbn [op_ok] in Hok; cbn [grows].
+    intros I Hok. pose proof I as (IL & IV & IS & IO). destruct o as [fields | i t | i p | i args | i args | i fields | i j | i js]; cbn [op_ok] in Hok; cbn [grows].
     - (* ONew *) split; [|cbn; rewrite app_length; cbn; lia]. unfold step, step_with, pstep.
       apply Inv_add; try assumption; try reflexivity.
       + do 2 eexists. rewrite <- app_assoc. cbn. repeat split. rewrite app_length. cbn. lia.
@@ -273,6 +273,30 @@ Section P.
         pose proof (proj2 (IO i Hi) false) as Q1. pose proof (proj2 (IO j Hj) false) as Q2.
         cbn [slot pslot] in Q1, Q2. now rewrite Q1, Q2.
       + cbn [p_fields]. now rewrite (proj1 (IO i Hi)), (proj1 (IO j Hj)).
+    - (* OMergeN *) apply andb_prop in Hok. destruct Hok as [Hi Hjs]. apply Nat.ltb_lt in Hi.
+      assert (Hall : Forall (fun k => k < length l) (i :: js)).
+      { constructor; [exact Hi|]. rewrite forallb_forall in Hjs. apply Forall_forall. intros k Hk. apply Nat.ltb_lt. now apply Hjs. }
+      split; [|cbn; rewrite app_length; cbn; lia].
+      unfold step, step_with, pstep. set (ks := i :: js) in *.
+      pose proof (two_fresh (st_heap x) (flat_map (fun a => read (st_heap x) (s_tests a)) (map (get x) ks))
+                            (fun h1 => flat_map (fun a => read h1 (s_pts a)) (map (get x) ks))) as T.
+      destruct (fresh slack (st_heap x) (flat_map (fun a => read (st_heap x) (s_tests a)) (map (get x) ks))) as [h1 t] eqn:F1.
+      specialize (T _ eq_refl).
+      destruct (fresh slack h1 (flat_map (fun a => read h1 (s_pts a)) (map (get x) ks))) as [h2 p]. destruct T as (Ex & Vt & Vp & Rt & Rp).
+      pose proof (fresh_spec (st_heap x) (flat_map (fun a => read (st_heap x) (s_tests a)) (map (get x) ks))) as Fs.
+      rewrite F1 in Fs. destruct Fs as (E1 & _).
+      apply Inv_add; try assumption.
+      + cbn [p_tests]. rewrite Rt. clear -Hall IO. induction Hall as [|k r Hk _ IHr]; cbn; [reflexivity|].
+        pose proof (proj2 (IO k Hk) true) as Q. cbn [slot pslot] in Q. now rewrite Q, IHr.
+      + cbn [p_pts]. rewrite Rp. subst h1.
+        assert (Lp : forall tl ks', Forall (fun k => k < length l) ks' ->
+                  flat_map (fun a => read (st_heap x ++ tl) (s_pts a)) (map (get x) ks') = flat_map p_pts (map (pget l) ks')).
+        { intros tl ks' H. induction H as [|k r Hk _ IHr]; cbn; [reflexivity|].
+          pose proof (IV k false Hk) as W. cbn [slot] in W. rewrite read_app_l by apply W.
+          pose proof (proj2 (IO k Hk) false) as Q. cbn [slot pslot] in Q. now rewrite Q, IHr. }
+        now apply Lp.
+      + cbn [p_fields]. clear -Hall IO. induction Hall as [|k r Hk _ IHr]; cbn; [reflexivity|].
+        now rewrite (proj1 (IO k Hk)), IHr.
   Qed.
 
   Lemma run_Inv ops : forall x l, Inv x l -> ops_ok (length l) ops = true -> Inv (fold_left step ops x) (fold_left pstep ops l).
